@@ -106,16 +106,15 @@ func VerifCallIDCorrelation() {
 func VerifMultiCorrelation() {
 	conn := &vConn{}
 	c := vNewClient(conn, 4)
-	regA, regB := vReg("t,,1"), vReg("t,m,2")
+	// regA2: a second RegionInfo object for region A (the client builds a fresh one whenever it
+	// looks a region up again; calls queued before and after carry different objects)
+	regA, regA2, regB := vReg("t,,1"), vReg("t,,1"), vReg("t,m,2")
 	n := verifParam("CALLS")
 	m := newMulti(4)
 	var calls []hrpc.Call
 	var cancels []context.CancelFunc
 	for i := 0; i < n; i++ {
-		reg := regA
-		if verifBool() {
-			reg = regB
-		}
+		reg := []hrpc.RegionInfo{regA, regB, regA2}[verifInt(0, 2)]
 		var cl hrpc.Call
 		cctx, cancel := context.WithCancel(context.Background())
 		cancels = append(cancels, cancel)
@@ -138,19 +137,39 @@ func VerifMultiCorrelation() {
 	for k := range c.sent {
 		id = k
 	}
-	// the response, built against the region order the request went out with
+	// the response: the server sees the request only - one result per region action, in request
+	// order, for the actions listed there
+	var req *pb.MultiRequest
+	if dropped < 0 {
+		req = m.ToProto().(*pb.MultiRequest) // (serialising again is only defined while no call has been dropped)
+	} else {
+		// the same grouping, reconstructed: one region action per RegionInfo object, in m.regions order
+		req = &pb.MultiRequest{}
+		for _, reg := range m.regions {
+			ra := &pb.RegionAction{Region: &pb.RegionSpecifier{Value: reg.Name()}}
+			for i, cl := range calls {
+				if cl.Region() == reg && i != dropped {
+					ra.Action = append(ra.Action, &pb.Action{Index: proto.Uint32(uint32(i + 1))})
+				}
+			}
+			req.RegionAction = append(req.RegionAction, ra)
+		}
+	}
 	mr := &pb.MultiResponse{}
 	var cells []byte
 	wantErr := make([]bool, n)
 	wantClass := make([]int, n) // 0: any error; 1: not-serving (region moved); 2: retry later (region busy)
 	count := make([]int, n)
-	for ri, reg := range m.regions {
+	listed := 0
+	for ri, ra := range req.RegionAction {
 		rar := &pb.RegionActionResult{}
 		var members []int
-		for i, cl := range calls {
-			if cl.Region() == reg && i != dropped {
-				members = append(members, i)
-			}
+		for _, a := range ra.Action {
+			i := int(a.GetIndex()) - 1
+			verifAssert(i >= 0 && i < n && i != dropped, "the request lists calls of the batch that were not dropped")
+			verifAssert(string(ra.Region.Value) == string(calls[i].Region().Name()), "every action is listed under the name of its call's region")
+			members = append(members, i)
+			listed++
 		}
 		if verifBool() {
 			// regions fail for reasons of their own: each call gets its own region's exception
@@ -186,6 +205,11 @@ func VerifMultiCorrelation() {
 		}
 		mr.RegionActionResult = append(mr.RegionActionResult, rar)
 	}
+	want := n
+	if dropped >= 0 {
+		want--
+	}
+	verifAssert(listed == want, "every call that was not dropped is in the request, once")
 	h := &pb.ResponseHeader{CallId: proto.Uint32(id)}
 	if len(cells) > 0 {
 		h.CellBlockMeta = &pb.CellBlockMeta{Length: proto.Uint32(uint32(len(cells)))}
@@ -310,4 +334,60 @@ func VerifMultiNotShared() {
 	m1, m2 := newMulti(2), newMulti(2)
 	verifAssert(m1 != m2, "two batches never share one multi-request object")
 	verifReach("distinct")
+}
+
+// VerifMultiReuse: two multi-requests one after the other on one connection - the second may be
+// built in the pooled object the first one was returned in. The first is answered with cells in
+// the cellblock, the second without any cellblock (rows that do not exist): the second caller
+// gets the (empty) answer to its own request, not what the pooled object still remembers.
+func VerifMultiReuse() {
+	conn := &vConn{}
+	c := vNewClient(conn, 2)
+	reg := vReg("t,,1")
+	for round := 0; round < 2; round++ {
+		n := 1
+		if verifBool() {
+			n = 2
+		}
+		var calls []hrpc.Call
+		for i := 0; i < n; i++ {
+			calls = append(calls, vGet(context.Background(), vKeys[2*round+i], reg))
+		}
+		m := newMulti(2)
+		m.add(calls)
+		verifAssert(c.trySend(m) == nil, "send")
+		id := uint32(round + 1)
+		rar := &pb.RegionActionResult{}
+		var cells []byte
+		for i := 0; i < n; i++ {
+			roe := &pb.ResultOrException{Index: proto.Uint32(uint32(i + 1)), Result: &pb.Result{}}
+			if round == 0 {
+				roe.Result.AssociatedCellCount = proto.Int32(1)
+				cells = append(cells, vTagCell(byte('A'+i))...)
+			}
+			rar.ResultOrException = append(rar.ResultOrException, roe)
+		}
+		h := &pb.ResponseHeader{CallId: proto.Uint32(id)}
+		if len(cells) > 0 {
+			h.CellBlockMeta = &pb.CellBlockMeta{Length: proto.Uint32(uint32(len(cells)))}
+		}
+		body := vAppendDelimited(nil, vWire(h, false))
+		body = vAppendDelimited(body, vWire(&pb.MultiResponse{RegionActionResult: []*pb.RegionActionResult{rar}}, false))
+		body = append(body, cells...)
+		err := c.receive(&vReader{b: vFrame(body, uint32(len(body)))})
+		vPending, vUnmarshalFails = nil, nil
+		verifAssert(err == nil, "a conforming multi-response is processed")
+		for i, cl := range calls {
+			verifAssert(vResults(cl) == 1, "every caller gets exactly one result")
+			r := <-cl.ResultChan()
+			verifAssert(r.Error == nil && r.Msg != nil, "the call succeeded")
+			cs := vResultCells(r.Msg)
+			if round == 0 {
+				verifAssert(len(cs) == 1 && cs[0].Row[0] == byte('A'+i), "the first round's callers get their cells")
+			} else {
+				verifAssert(len(cs) == 0, "a caller whose row does not exist gets an empty result, not an earlier caller's cells")
+			}
+		}
+	}
+	verifReach("reused")
 }
